@@ -1,6 +1,10 @@
 import RtVerif.Model.C01
 import RtVerif.Props.C05
 import RtVerif.Lemmas.C01Bridge
+import RtVerif.Lemmas.C01Composite
+import RtVerif.Lemmas.C01Allow
+import RtVerif.Lemmas.C01CompBridge
+import RtVerif.Lemmas.C01SpecLink
 /-
   C01 — property theorems for the dispatch model.
 
@@ -14,7 +18,20 @@ import RtVerif.Lemmas.C01Bridge
                         cleaned path instantiates with non-empty texts (C05 completeness);
   * `allow_exact`    — 405 ⇔ some other method's table matches; the Allow set is exactly the set of
                         those methods, sorted; 404 otherwise;
-  * `method_case_insensitive`, `path_only_through_clean`.
+  * `method_case_insensitive`, `path_only_through_clean`;
+  * `allow_exact_templates` — the 404/405 decision in the property's own words, for descriptions all
+                        of whose templates are simple: Allow lists exactly the methods under which
+                        some template is instantiated segment by segment by the cleaned path;
+  * composite segments (`{a}-{b}`, `{id}.json`, `{name}.{ext}`): `allInst_exact` (the Spec's
+    enumerator lists exactly the instantiations), `composite_split_instantiates` (what
+    `decodeCompositParams` returns is an instantiation whenever the segment text has one),
+    `composite_split_unique`, `composite_values_unique`, `composite_values_sepOnce` (where the
+    instantiation is unique the handler receives exactly it, decoded, by name),
+    `composite_ran_params` (dispatch on a template with composite segments: the operation that
+    runs, the texts the trie captures, and that the values received are the decoded texts of an
+    instantiation of the whole template), `composite_ran_meets_spec` (the same in terms of the
+    Spec's own enumerator `instAll`, read from the template text), and the witnesses of the recorded findings F01g (fixed),
+    F01h, F01i.
 -/
 namespace RtVerif.C01
 open RtVerif Bytes
@@ -295,5 +312,410 @@ theorem simple_ran_params (api : Api) (m p : Bytes) (i : Nat) (ps : List (Bytes 
     subst hr0
     simp only [collectParams, Option.some.injEq] at hcp
     exact ⟨[], hop, hm, hraws, by rw [← hcp]; rfl⟩
+
+
+/-! ## The 404/405 decision in the property's own words (simple templates) -/
+
+/-- **405 with Allow = exactly the methods under which some template fits** — for a description all
+of whose templates are simple (every segment static text or one whole-segment placeholder) and whose
+per-method tables the trie router accepted.  `Allow` (as a set) lies between the methods under which
+a template is instantiated with non-empty texts and those under which one is instantiated at all;
+the two coincide unless the cleaned path is the root `/` (`allow_exact_templates_nonroot`).
+No template under the request's own method fits (with non-empty texts), in the 405 and in the 404
+case; in the 404 case none does under any method. -/
+theorem allow_exact_templates (api : Api) (m p : Bytes)
+    (hsimple : ∀ op ∈ api.ops, ∃ segs, WFT segs ∧ segs ≠ [] ∧ fullPath api op = renderT segs)
+    (hbuilt : ∀ x ∈ methodsOf api, ∃ t, C05.build (recordsFor api x) = .ok t)
+    (hroot : GoPath.isRooted p = true) :
+    (∀ a, dispatch api m p = .notAllowed a →
+      a ≠ [] ∧
+      (∀ x ∈ a, x ∈ methodsOf api ∧ x ≠ toUpper m ∧
+        ∃ op ∈ api.ops, toUpper op.method = x ∧
+          (instantiates (fullPath api op) (GoPath.clean p)).isSome = true) ∧
+      (∀ op ∈ api.ops, toUpper op.method ≠ toUpper m →
+        fitsStrict (fullPath api op) (GoPath.clean p) = true → toUpper op.method ∈ a)) ∧
+    (dispatch api m p = .notFound →
+      ∀ op ∈ api.ops, toUpper op.method ≠ toUpper m → fitsStrict (fullPath api op) (GoPath.clean p) = false) ∧
+    ((∀ i ps, dispatch api m p ≠ .ran i ps) → dispatch api m p ≠ .panic →
+      ∀ op ∈ api.ops, toUpper op.method = toUpper m → fitsStrict (fullPath api op) (GoPath.clean p) = false) := by
+  obtain ⟨hclean, hsegs⟩ := clean_rooted_renderP p hroot
+  -- the two directions, per method
+  have hloose : ∀ x, matchesUnder api x (GoPath.clean p) = true →
+      ∃ op ∈ api.ops, toUpper op.method = x ∧ (instantiates (fullPath api op) (GoPath.clean p)).isSome = true := by
+    intro x hx
+    unfold matchesUnder at hx
+    cases hl : lookupUnder api x (GoPath.clean p) with
+    | none => rw [hl] at hx; cases hx
+    | some o =>
+      cases o with
+      | notFound => rw [hl] at hx; cases hx
+      | found v names vals =>
+        have hs := lookupUnder_spec hl
+        simp only [C05.specLookup, List.any_eq_true, Bool.and_eq_true, beq_iff_eq] at hs
+        obtain ⟨kv, hkv, _, hfound⟩ := hs
+        obtain ⟨op, hop, hm', _, hkey⟩ := mem_recordsFor hkv
+        have hmem : op ∈ api.ops := List.mem_of_getElem? hop
+        obtain ⟨segs, hw, hne, hfp⟩ := hsimple op hmem
+        refine ⟨op, hmem, hm', ?_⟩
+        rw [hkey, hfp, convert_renderT segs hw, hclean] at hfound
+        rw [hfp, hclean]
+        exact foundOk_loose _ segs hw hne _ hsegs names vals hfound
+  have hstrict : ∀ op ∈ api.ops, toUpper op.method ∈ methodsOf api →
+      matchesUnder api (toUpper op.method) (GoPath.clean p) = false →
+      fitsStrict (fullPath api op) (GoPath.clean p) = false := by
+    intro op hmem hmeth hx
+    obtain ⟨segs, hw, hne, hfp⟩ := hsimple op hmem
+    obtain ⟨t, hb⟩ := hbuilt _ hmeth
+    obtain ⟨i, hi⟩ := recordsFor_of_mem hmem
+    have hspec := C05.lookup_spec _ t (GoPath.clean p) hb
+    have hlu : lookupUnder api (toUpper op.method) (GoPath.clean p) = some (C05.lookup t (GoPath.clean p)) := by
+      simp [lookupUnder, C05.route, hb]
+    unfold matchesUnder at hx
+    rw [hlu] at hx
+    cases hl : C05.lookup t (GoPath.clean p) with
+    | found v ns vs => rw [hl] at hx; simp at hx
+    | notFound =>
+      rw [hl, hclean] at hspec
+      rw [hfp, convert_renderT segs hw] at hi
+      rw [hfp, hclean]
+      exact notFound_unfit _ segs hw hne _ hsegs i hi hspec
+  obtain ⟨h405, h404⟩ := allow_exact api m p
+  refine ⟨?_, ?_, ?_⟩
+  · intro a ha
+    obtain ⟨hne, hiff⟩ := h405 a ha
+    refine ⟨hne, ?_, ?_⟩
+    · intro x hx
+      obtain ⟨h1, h2, h3⟩ := (hiff x).mp hx
+      exact ⟨h1, h2, hloose x h3⟩
+    · intro op hmem hne' hfit
+      apply (hiff _).mpr
+      refine ⟨mem_methodsOf hmem, hne', ?_⟩
+      cases hmu : matchesUnder api (toUpper op.method) (GoPath.clean p) with
+      | true => rfl
+      | false => rw [hstrict op hmem (mem_methodsOf hmem) hmu] at hfit; cases hfit
+  · intro hnf op hmem hne'
+    exact hstrict op hmem (mem_methodsOf hmem) (h404 hnf _ (mem_methodsOf hmem) hne')
+  · intro hnr hnp op hmem hme
+    have hmeth : toUpper m ∈ methodsOf api := hme ▸ mem_methodsOf hmem
+    obtain ⟨t, hb⟩ := hbuilt _ hmeth
+    have := refused_unfit api m p hnr hnp hmeth t hb
+    obtain ⟨segs, hw, hne, hfp⟩ := hsimple op hmem
+    obtain ⟨i, hi⟩ := recordsFor_of_mem hmem
+    rw [hme, hfp, convert_renderT segs hw] at hi
+    rw [hclean] at this
+    rw [hfp, hclean]
+    exact notFound_unfit _ segs hw hne _ hsegs i hi this
+
+/-- away from the root path "fits" needs no qualification: Allow is *exactly* the set of the other
+methods under which some template is instantiated by the cleaned path -/
+theorem allow_exact_templates_nonroot (api : Api) (m p : Bytes)
+    (hsimple : ∀ op ∈ api.ops, ∃ segs, WFT segs ∧ segs ≠ [] ∧ fullPath api op = renderT segs)
+    (hbuilt : ∀ x ∈ methodsOf api, ∃ t, C05.build (recordsFor api x) = .ok t)
+    (hroot : GoPath.isRooted p = true) (hk : GoPath.kept p ≠ [])
+    (a : List Bytes) (h : dispatch api m p = .notAllowed a) (x : Bytes) :
+    x ∈ a ↔ (x ≠ toUpper m ∧ ∃ op ∈ api.ops, toUpper op.method = x ∧
+      (instantiates (fullPath api op) (GoPath.clean p)).isSome = true) := by
+  obtain ⟨h405, _, _⟩ := allow_exact_templates api m p hsimple hbuilt hroot
+  obtain ⟨_, hl, hs⟩ := h405 a h
+  constructor
+  · intro hx
+    obtain ⟨_, h2, h3⟩ := hl x hx
+    exact ⟨h2, h3⟩
+  · rintro ⟨hne, op, hmem, rfl, hfit⟩
+    obtain ⟨segs, hw, hne', hfp⟩ := hsimple op hmem
+    rw [hfp] at hfit
+    exact hs op hmem hne (by rw [hfp]; exact loose_strict_of_nonroot segs hw hne' p hroot hk hfit)
+
+set_option maxRecDepth 20000 in
+/-- non-vacuity: the description GET /pets/{id}, POST /pets meets the hypotheses -/
+example :
+    (∀ op ∈ exApi.ops, ∃ segs, WFT segs ∧ segs ≠ [] ∧ fullPath exApi op = renderT segs) ∧
+    (∀ x ∈ methodsOf exApi, ∃ t, C05.build (recordsFor exApi x) = .ok t) := by
+  have hw0 : WFT [.lit [112,101,116,115], .ph [105,100]] := by
+    intro s hs
+    simp only [List.mem_cons, List.not_mem_nil, or_false] at hs
+    rcases hs with rfl | rfl <;> decide
+  have hw1 : WFT [.lit [112,101,116,115]] := by
+    intro s hs
+    simp only [List.mem_cons, List.not_mem_nil, or_false] at hs
+    rcases hs with rfl <;> decide
+  have hf0 : fullPath exApi ⟨[103,101,116], [47,112,101,116,115,47,123,105,100,125]⟩ = renderT [.lit [112,101,116,115], .ph [105,100]] := by decide
+  have hf1 : fullPath exApi ⟨[112,111,115,116],[47,112,101,116,115]⟩ = renderT [.lit [112,101,116,115]] := by decide
+  constructor
+  · intro op hop
+    simp only [exApi, List.mem_cons, List.not_mem_nil, or_false] at hop
+    rcases hop with rfl | rfl
+    · exact ⟨_, hw0, by simp, hf0⟩
+    · exact ⟨_, hw1, by simp, hf1⟩
+  · have hm : methodsOf exApi = [[71,69,84],[80,79,83,84]] := by decide
+    rw [hm]
+    have c00 : (toUpper [103,101,116] == [71,69,84] && hasHandler exApi ⟨[103,101,116], [47,112,101,116,115,47,123,105,100,125]⟩) = true := by decide
+    have c01 : (toUpper [112,111,115,116] == [71,69,84] && hasHandler exApi ⟨[112,111,115,116],[47,112,101,116,115]⟩) = false := by decide
+    have c10 : (toUpper [103,101,116] == [80,79,83,84] && hasHandler exApi ⟨[103,101,116], [47,112,101,116,115,47,123,105,100,125]⟩) = false := by decide
+    have c11 : (toUpper [112,111,115,116] == [80,79,83,84] && hasHandler exApi ⟨[112,111,115,116],[47,112,101,116,115]⟩) = true := by decide
+    have hr0 : recordsFor exApi [71,69,84] = [([47,112,101,116,115,47,58,105,100], 0)] := by
+      unfold recordsFor
+      have : exApi.ops = [⟨[103,101,116], [47,112,101,116,115,47,123,105,100,125]⟩, ⟨[112,111,115,116],[47,112,101,116,115]⟩] := rfl
+      simp only [this, List.zipIdx_cons, List.zipIdx_nil, List.filterMap_cons, List.filterMap_nil, c00, c01,
+        ↓reduceIte, Bool.false_eq_true, hf0, convert_renderT _ hw0]
+      rfl
+    have hr1 : recordsFor exApi [80,79,83,84] = [([47,112,101,116,115], 1)] := by
+      unfold recordsFor
+      have : exApi.ops = [⟨[103,101,116], [47,112,101,116,115,47,123,105,100,125]⟩, ⟨[112,111,115,116],[47,112,101,116,115]⟩] := rfl
+      simp only [this, List.zipIdx_cons, List.zipIdx_nil, List.filterMap_cons, List.filterMap_nil, c10, c11,
+        ↓reduceIte, Bool.false_eq_true, hf1, convert_renderT _ hw1]
+      rfl
+    intro x hx
+    simp only [List.mem_cons, List.not_mem_nil, or_false] at hx
+    rcases hx with rfl | rfl
+    · rw [hr0]; exact build_ok_of _ (by decide)
+    · rw [hr1]; exact build_ok_of _ (by decide)
+
+
+/-! ## Composite segments: `pre {n0} st0 {n1} st1 … {nk} stk`
+
+`segText`/`patAfter` spell the pattern text, `renderVals phs vs` the segment text the values `vs`
+make of it, `allInst phs t` is the Spec's enumerator of the instantiations of the text `t`. -/
+
+/-- **the Spec's enumerator is exact**: it lists the value lists that reproduce the segment text when
+put between the static texts, and only those -/
+theorem allInst_exact (phs : List (Bytes × Bytes)) (t : Bytes) (vs : List Bytes) :
+    vs ∈ allInst phs t ↔ renderVals phs vs = some t :=
+  mem_allInst phs t vs
+
+/-- **what `decodeCompositParams` returns** (names of the placeholders in order, one value each,
+never a panic) **is an instantiation whenever the segment text has one at all** — for every pattern
+with brace-free names and static texts, adjacent placeholders and empty values included. -/
+theorem composite_split_instantiates (n0 st0 : Bytes) (r : List (Bytes × Bytes)) (t : Bytes)
+    (hw : PhsWF ((n0, st0) :: r)) :
+    ∃ vals, decodeComposite ((patAfter st0 r).length + 2) n0 t (patAfter st0 r) =
+        some ((((n0, st0) :: r).map (·.1)).zip vals) ∧
+      vals.length = r.length + 1 ∧
+      ((allInst ((n0, st0) :: r) t ≠ []) → vals ∈ allInst ((n0, st0) :: r) t) := by
+  refine ⟨greedy ((n0, st0) :: r) t, ?_, by simp [greedy_length], ?_⟩
+  · apply decodeComposite_eq r _ n0 st0 t hw
+    have := segText_length r
+    simp only [patAfter, List.length_append]; omega
+  · intro hne
+    obtain ⟨us, hus⟩ := List.exists_mem_of_ne_nil _ hne
+    exact (mem_allInst _ _ _).mpr (greedy_complete _ t ⟨us, (mem_allInst _ _ _).mp hus⟩)
+
+/-- non-vacuity: `{name}.{ext}` against `a.b.c` (two instantiations; the code's is the leftmost) -/
+example : PhsWF [([110], [46]), ([101], [])] ∧
+    allInst [([110], [46]), ([101], [])] [97, 46, 98, 46, 99] = [[[97], [98, 46, 99]], [[97, 46, 98], [99]]] ∧
+    decodeComposite 9 [110] [97, 46, 98, 46, 99] [46, 123, 101, 125] = some [([110], [97]), ([101], [98, 46, 99])] := by
+  refine ⟨?_, by decide, by decide⟩
+  intro p hp
+  simp only [List.mem_cons, List.not_mem_nil, or_false] at hp
+  rcases hp with rfl | rfl <;> decide
+
+/-- **unique instantiation ⇒ exactly it**: if `us` is the only instantiation of the segment text,
+`decodeCompositParams` returns `us`, by name. -/
+theorem composite_split_unique (n0 st0 : Bytes) (r : List (Bytes × Bytes)) (t : Bytes) (us : List Bytes)
+    (hw : PhsWF ((n0, st0) :: r)) (hus : us ∈ allInst ((n0, st0) :: r) t)
+    (huniq : ∀ vs ∈ allInst ((n0, st0) :: r) t, vs = us) :
+    decodeComposite ((patAfter st0 r).length + 2) n0 t (patAfter st0 r) =
+      some ((((n0, st0) :: r).map (·.1)).zip us) := by
+  obtain ⟨vals, hdc, _, hin⟩ := composite_split_instantiates n0 st0 r t hw
+  rw [hdc, huniq vals (hin (List.ne_nil_of_mem hus))]
+
+/-- **C01 for a composite segment, in the property's own words.**  For the template
+`A ++ {n0} ++ st0 {n1} st1 … {nk} stk ++ B` (`B` empty or the following segments) and the still
+escaped text `raw` the trie captured for `n0`: if `us` is the one instantiation of `raw`, the handler
+receives exactly the percent-decoded `us`, by name. -/
+theorem composite_values_unique (A B n0 st0 : Bytes) (r : List (Bytes × Bytes)) (raw : Bytes) (us : List Bytes)
+    (hw : PhsWF ((n0, st0) :: r))
+    (hidx : indexOf (needleOf n0) (A ++ needleOf n0 ++ patAfter st0 r ++ B) = some A.length)
+    (hne : patAfter st0 r ≠ []) (hns : slash ∉ patAfter st0 r)
+    (hB : B = [] ∨ ∃ B', B = slash :: B')
+    (hus : us ∈ allInst ((n0, st0) :: r) raw)
+    (huniq : ∀ vs ∈ allInst ((n0, st0) :: r) raw, vs = us) :
+    paramsOf (A ++ needleOf n0 ++ patAfter st0 r ++ B) n0 raw =
+      some ((((n0, st0) :: r).map (·.1)).zip (us.map decode)) := by
+  rw [paramsOf_composite A B n0 st0 r raw hw hidx hne hns hB]
+  have := greedy_complete _ raw ⟨us, (mem_allInst _ _ _).mp hus⟩
+  rw [huniq _ ((mem_allInst _ _ _).mpr this)]
+
+/-- **the explicit class**: the values `us` render the segment text, and every separator between two
+placeholders occurs in the text that remains from the value in front of it on at its designated
+place only (`SepOnce`; for a one-byte separator: it occurs neither in that value nor behind it,
+`onlyAt_single`).  Then `us` is the only instantiation and the handler receives it, decoded. -/
+theorem composite_values_sepOnce (A B n0 st0 : Bytes) (r : List (Bytes × Bytes)) (raw : Bytes) (us : List Bytes)
+    (hw : PhsWF ((n0, st0) :: r))
+    (hidx : indexOf (needleOf n0) (A ++ needleOf n0 ++ patAfter st0 r ++ B) = some A.length)
+    (hne : patAfter st0 r ≠ []) (hns : slash ∉ patAfter st0 r)
+    (hB : B = [] ∨ ∃ B', B = slash :: B')
+    (hus : renderVals ((n0, st0) :: r) us = some raw) (hsep : SepOnce ((n0, st0) :: r) us) :
+    (∀ vs ∈ allInst ((n0, st0) :: r) raw, vs = us) ∧
+    paramsOf (A ++ needleOf n0 ++ patAfter st0 r ++ B) n0 raw =
+      some ((((n0, st0) :: r).map (·.1)).zip (us.map decode)) := by
+  have huniq : ∀ vs ∈ allInst ((n0, st0) :: r) raw, vs = us := fun vs hvs =>
+    unique_of_sepOnce _ us raw hus hsep vs ((mem_allInst _ _ _).mp hvs)
+  exact ⟨huniq, composite_values_unique A B n0 st0 r raw us hw hidx hne hns hB ((mem_allInst _ _ _).mpr hus) huniq⟩
+
+/-- non-vacuity: template `/f/{n}.{e}/x`, captured text `a%2Eb.c` (the escaped dot belongs to the
+value): the class holds and the handler receives n = `a.b`, e = `c` -/
+example :
+    let A : Bytes := [47, 102, 47]
+    let B : Bytes := [47, 120]
+    let raw : Bytes := [97, 37, 50, 69, 98, 46, 99]
+    PhsWF [([110], [46]), ([101], [])] ∧
+    indexOf (needleOf [110]) (A ++ needleOf [110] ++ patAfter [46] [([101], [])] ++ B) = some A.length ∧
+    renderVals [([110], [46]), ([101], [])] [[97, 37, 50, 69, 98], [99]] = some raw ∧
+    SepOnce [([110], [46]), ([101], [])] [[97, 37, 50, 69, 98], [99]] ∧
+    paramsOf (A ++ needleOf [110] ++ patAfter [46] [([101], [])] ++ B) [110] raw =
+      some [([110], [97, 46, 98]), ([101], [99])] := by
+  refine ⟨?_, by decide, by decide, ?_, by decide⟩
+  · intro p hp
+    simp only [List.mem_cons, List.not_mem_nil, or_false] at hp
+    rcases hp with rfl | rfl <;> decide
+  · refine ⟨⟨[99], by decide, ?_⟩, trivial⟩
+    exact onlyAt_single 46 _ _ (by decide) (by decide)
+
+/-! ### dispatch on templates with composite segments -/
+
+/-- **C01 for templates with composite segments, in the property's own words.**  The template is
+`/s1/s2/…`, every segment static text or `pre {n0} st0 {n1} st1 … {nk} stk` (a whole-segment
+placeholder included), placeholder names distinct, the converted key one the trie router takes for
+parameterised (`/:` in it — not the class F01h).  If an operation runs: its method is the
+request's; every static segment equals the path segment at its place and every `pre` is a prefix of
+its path segment (`matchX`); the handler receives, per segment, the leftmost splitting of the text
+behind `pre`, every fragment percent-decoded, by name (`flatParams`).  And whenever the cleaned
+path instantiates the template at all (`InstOf`), the values received are the percent-decoded
+texts of an instantiation — of THE instantiation when there is only one. -/
+theorem composite_ran_params (api : Api) (m p : Bytes) (i : Nat) (ps : List (Bytes × Bytes))
+    (hran : dispatch api m p = .ran i ps) (xs : List XS) (hw : WFX xs)
+    (hnd : (allNames xs).Nodup) (hpk : C05.isParamKey (keyX xs) = true)
+    (hfp : ∀ op, api.ops[i]? = some op → fullPath api op = renderX xs)
+    (hroot : GoPath.isRooted p = true) :
+    ∃ op vals, api.ops[i]? = some op ∧ toUpper op.method = toUpper m ∧
+      matchX xs (pathSegs p) = some vals ∧ ps = flatParams xs vals ∧
+      ((∃ raws, InstOf xs (pathSegs p) raws) →
+        ∃ raws, InstOf xs (pathSegs p) raws ∧ ps = raws.map (fun kv => (kv.1, decode kv.2))) := by
+  obtain ⟨op, names, vals, hop, hm, _, hcp, hspec⟩ := ran_sound api m p i ps hran
+  have hfp' := hfp op hop
+  obtain ⟨hclean, hsegs⟩ := clean_rooted_renderP p hroot
+  simp only [C05.specLookup, List.any_eq_true, Bool.and_eq_true, beq_iff_eq] at hspec
+  obtain ⟨kv, hkv, hv, hfound⟩ := hspec
+  obtain ⟨op', hop', _, _, hkey⟩ := mem_recordsFor hkv
+  rw [hv, hop] at hop'
+  simp only [Option.some.injEq] at hop'
+  subst hop'
+  rw [hfp', convert_renderX xs hw] at hkey
+  unfold C05.foundOk at hfound
+  rw [hkey, hclean] at hfound
+  simp only [hpk, Bool.not_true, Bool.false_eq_true, ↓reduceIte, Bool.and_eq_true, beq_iff_eq] at hfound
+  obtain ⟨⟨⟨hmk, hnames⟩, _⟩, _⟩ := hfound
+  have hmk' : C05.matchKey false (tailKeyX xs) (renderP (pathSegs p)) = some vals := hmk
+  rw [matchKey_keyX xs hw _ hsegs] at hmk'
+  have hnm : names = firstNames xs := by
+    have : names = C05.namesOf (tailKeyX xs) := hnames
+    rw [this, namesOf_tailKeyX xs hw]
+  rw [hfp', hnm] at hcp
+  have hcx := collectParams_X [] xs (by simpa using hw) (by simpa using hnd) vals
+  simp only [List.nil_append] at hcx
+  rw [hcx] at hcp
+  simp only [Option.some.injEq] at hcp
+  refine ⟨op, vals, hop, hm, hmk', hcp.symm, ?_⟩
+  intro hex
+  exact ⟨rawParams xs vals, instOf_greedy xs _ vals hmk' hex, by rw [← hcp, flatParams_eq]⟩
+
+/-- non-vacuity: `/f/{n}.{e}` -/
+example : WFX [.lit [102], .par [] [110] [46] [([101], [])]] ∧
+    renderX [.lit [102], .par [] [110] [46] [([101], [])]] = [47, 102, 47, 123, 110, 125, 46, 123, 101, 125] ∧
+    (allNames [.lit [102], .par [] [110] [46] [([101], [])]]).Nodup ∧
+    C05.isParamKey (keyX [.lit [102], .par [] [110] [46] [([101], [])]]) = true ∧
+    matchX [.lit [102], .par [] [110] [46] [([101], [])]] [[102], [97, 46, 98]] = some [[97, 46, 98]] ∧
+    flatParams [.lit [102], .par [] [110] [46] [([101], [])]] [[97, 46, 98]] = [([110], [97]), ([101], [98])] := by
+  refine ⟨?_, by decide, by decide, by decide, by decide, by decide⟩
+  intro s hs
+  simp only [List.mem_cons, List.not_mem_nil, or_false] at hs
+  rcases hs with rfl | rfl
+  · show List.all [102] plainByte = true; decide
+  · refine ⟨by decide, by decide, by decide, by decide, ?_⟩
+    intro p hp
+    simp only [List.mem_cons, List.not_mem_nil, or_false] at hp
+    subst hp; decide
+
+/-- **the `ran` clause of the driver's Spec (`specDispatchC`), route and values, is met** on every
+template with composite segments of the class of `composite_ran_params` that the cleaned path
+instantiates at all: the operation is registered under the request's method and the values the
+handler receives are the percent-decoded texts of one of the instantiations `instAll` lists — of
+the only one when `instAll` lists one. -/
+theorem composite_ran_meets_spec (api : Api) (m p : Bytes) (i : Nat) (ps : List (Bytes × Bytes))
+    (hran : dispatch api m p = .ran i ps) (xs : List XS) (hw : WFX xs) (hne : xs ≠ [])
+    (hnd : (allNames xs).Nodup) (hpk : C05.isParamKey (keyX xs) = true)
+    (hfp : ∀ op, api.ops[i]? = some op → fullPath api op = renderX xs)
+    (hroot : GoPath.isRooted p = true)
+    (hfit : fitsLooseC (renderX xs) (GoPath.clean p) = true) :
+    ∃ op, api.ops[i]? = some op ∧ toUpper op.method = toUpper m ∧
+      (instAll (fullPath api op) (GoPath.clean p)).any
+        (fun raws => ps == raws.map (fun kv => (kv.1, decode kv.2))) = true := by
+  obtain ⟨op, vals, hop, hm, _, _, himp⟩ := composite_ran_params api m p i ps hran xs hw hnd hpk hfp hroot
+  obtain ⟨hclean, hsegs⟩ := clean_rooted_renderP p hroot
+  refine ⟨op, hop, hm, ?_⟩
+  rw [hfp op hop, hclean]
+  rw [hclean] at hfit
+  have hex : ∃ raws, InstOf xs (pathSegs p) raws := by
+    unfold fitsLooseC at hfit
+    cases hl : instAll (renderX xs) (renderP (pathSegs p)) with
+    | nil => rw [hl] at hfit; simp at hfit
+    | cons r0 rs =>
+      exact ⟨r0, (mem_instAll xs hw hne _ hsegs (pathSegs_ne_nil p) r0).mp (by rw [hl]; exact List.mem_cons_self)⟩
+  obtain ⟨raws, hinst, hps⟩ := himp hex
+  simp only [List.any_eq_true, beq_iff_eq]
+  exact ⟨raws, (mem_instAll xs hw hne _ hsegs (pathSegs_ne_nil p) raws).mpr hinst, hps⟩
+
+/-- The full statement for descriptions with composite segments — what the driver's Spec
+(`specDispatchC`) demands, for all inputs outside the recorded classes.  Proved of it: the whole
+`ran` clause but the preference among templates (`composite_ran_meets_spec`: method, and the values
+are the decoded texts of one of the instantiations `instAll` lists), for templates of the class of
+`composite_ran_params`; `instAll` is exact there (`mem_instAll`, `allInst_exact`).  NOT proved for
+composite templates: the preference clause and the 404/405 clauses in terms of templates (they hold
+at the level of the trie key: `ran_sound`, `refused_unfit`, `allow_exact`).  The correspondence
+check judges every generated case with this very predicate. -/
+def CompositeRanStatement : Prop :=
+  ∀ (api : Api) (m p : Bytes),
+    (api.ops.all fun op => wellFormedT (fullPath api op)) = true →
+    dupKeys api = false → buildRefused api = false → oddStatic api = false →
+    staticComposite api (GoPath.clean p) = false → compositeMisfit api (GoPath.clean p) = false →
+    specDispatchC api m p (dispatch api m p) = true
+
+/-! ### witnesses of the recorded findings -/
+
+/-- F01g (fixed): the split runs on the escaped text, every fragment is decoded on its own —
+`/x/{a}-{b}` with `/x/foo%2Dbar-baz` gives a = `foo-bar`, b = `baz` (the code before the repair
+decoded first and split `foo-bar-baz` at the first `-`). -/
+theorem F01g_escaped_separator :
+    paramsOf [47, 120, 47, 123, 97, 125, 45, 123, 98, 125] [97]
+        [102, 111, 111, 37, 50, 68, 98, 97, 114, 45, 98, 97, 122] =
+      some [([97], [102, 111, 111, 45, 98, 97, 114]), ([98], [98, 97, 122])] ∧
+    decodeComposite 6 [97] (decode [102, 111, 111, 37, 50, 68, 98, 97, 114, 45, 98, 97, 122]) [45, 123, 98, 125] =
+      some [([97], [102, 111, 111]), ([98], [98, 97, 114, 45, 98, 97, 122])] := by
+  constructor <;> decide
+
+/-- F01h: `/v{major}.{minor}` becomes the key `/v:major`, which the trie router files as static
+text (no `/:` in it): only the literal path `/v:major` is matched. -/
+theorem F01h_prefix_key_is_static :
+    convert [47, 118, 123, 109, 97, 106, 111, 114, 125, 46, 123, 109, 105, 110, 111, 114, 125] =
+      [47, 118, 58, 109, 97, 106, 111, 114] ∧
+    C05.isParamKey [47, 118, 58, 109, 97, 106, 111, 114] = false := by
+  refine ⟨?_, by decide⟩
+  rw [convert_cons_ne _ _ (by decide), convert_cons_ne _ _ (by decide)]
+  have h : convert [123, 109, 97, 106, 111, 114, 125, 46, 123, 109, 105, 110, 111, 114, 125] =
+      [58, 109, 97, 106, 111, 114] := by
+    have h := convert_ph [109, 97, 106, 111, 114] [46, 123, 109, 105, 110, 111, 114, 125] (by decide) (by decide)
+    have hd : List.dropWhile (fun x => x != slash) [46, 123, 109, 105, 110, 111, 114, 125] = [] := by decide
+    rw [hd, convert_nil] at h
+    exact h
+  rw [h]
+
+/-- F01i: the trie keeps `{id}` of `{id}.json` only; for the captured text `5.xml`, which has no
+instantiation, the handler is given id = "" all the same. -/
+theorem F01i_misfit_runs_with_empty_value :
+    allInst [([105, 100], [46, 106, 115, 111, 110])] [53, 46, 120, 109, 108] = [] ∧
+    paramsOf [47, 112, 47, 123, 105, 100, 125, 46, 106, 115, 111, 110] [105, 100] [53, 46, 120, 109, 108] =
+      some [([105, 100], [])] := by
+  constructor <;> decide
 
 end RtVerif.C01
